@@ -137,7 +137,7 @@ func (e *Engine) allocSet(fn *ssa.Function) (map[string]bool, bool) {
 		set = nil
 	}
 	// a result is final unless it used the incomplete result of a function that is still on the stack above fn
-	if allocTaint >= myDepth {
+	if allocTaint >= myDepth && !(allocVisits > allocBudget && !known) { // "unknown" caused by an exhausted budget is not final
 		allocMemo[fn] = &allocInfo{known: known, set: set}
 		if allocTaint == myDepth {
 			allocTaint = 1 << 30
